@@ -38,7 +38,7 @@ inductive Val where
   deriving Inhabited
 
 inductive Err where
-  | typeError | keyError | indexError | queueEmpty | attributeError | valueError | structError | unsupported
+  | typeError | keyError | indexError | queueEmpty | attributeError | valueError | structError | overflowError | unsupported
   deriving DecidableEq, Repr, Inhabited
 
 abbrev M := Except Err
@@ -430,6 +430,97 @@ def structCalcsize (fmt : Val) : M Val := do
   match fmtWords (← fmtBytes fmt) with
   | Option.none => throw .unsupported
   | some n => pure (.int (4 * n : Nat))
+
+
+/-! ### big-integer helpers used by auth/keygen.py -/
+
+/-- `a << b`, `a ** b` for non-negative operands -/
+def shl (a b : Val) : M Val := do pure (.int (((← natOf a) <<< (← natOf b) : Nat)))
+def pow (a b : Val) : M Val := do pure (.int (((← natOf a) ^ (← natOf b) : Nat)))
+
+/-- extended Euclid, the recursion of Mathlib's `Nat.xgcdAux` (ported verbatim so that it can be proved equal to it):
+    invariant `r = a*s + b*t`, `r' = a*s' + b*t'` -/
+def xgcdAux : Nat → Int → Int → Nat → Int → Int → Nat × Int × Int
+  | 0, _, _, r', s', t' => (r', s', t')
+  | k + 1, s, t, r', s', t' =>
+    let q := r' / (k + 1)
+    xgcdAux (r' % (k + 1)) (s' - q * s) (t' - q * t) (k + 1) s t
+termination_by k => k
+decreasing_by exact Nat.mod_lt _ (Nat.succ_pos _)
+
+/-- the Bezout coefficient of `a` in `gcd a b = a * gcdA a b + b * gcdB a b` -/
+def gcdA (a b : Nat) : Int := (xgcdAux a 1 0 b 0 1).2.1
+
+/-- `rsa._modinv(e, m)` of `cryptography` (extended Euclid, result reduced into `[0, m)`); meaningful when `gcd e m = 1` -/
+def modinv (e m : Val) : M Val := do
+  let a ← natOf e
+  let b ← natOf m
+  if b = 0 then throw .unsupported else pure (.int (Int.emod (gcdA a b) (b : Int)))
+
+/-- little-endian bytes of `n`, exactly `len` of them (the low `len` bytes) -/
+def leBytesN : Nat → Nat → List UInt8
+  | 0, _ => []
+  | len + 1, n => UInt8.ofNat n :: leBytesN len (n / 256)
+
+/-- `n.to_bytes(length, byteorder)` for a non-negative int: OverflowError when `n` does not fit -/
+def intToBytes (n length order : Val) : M Val := do
+  let v ← natOf n
+  let len ← natOf length
+  if v ≥ 256 ^ len then throw .overflowError else
+  match order with
+  | .str "little" => pure (.bytes (leBytesN len v))
+  | .str "big" => pure (.bytes (leBytesN len v).reverse)
+  | _ => throw .valueError
+
+/-- `hasattr(x, 'to_bytes')`: ints (and bools) have it -/
+def hasToBytes : Val → M Val
+  | .int _ => pure (.bool true)
+  | .bool _ => pure (.bool true)
+  | .none => pure (.bool false)
+  | .bytes _ => pure (.bool false)
+  | .str _ => pure (.bool false)
+  | _ => throw .unsupported
+
+/-- items of a general little-endian struct format: `I`/`L` = unsigned 32-bit, `<n>s` = exactly n bytes -/
+inductive FmtItem where
+  | u32
+  | bytesN (n : Nat)
+  deriving DecidableEq, Repr, Inhabited
+
+/-- parser for formats like `<LL256s256sL` (after the `<`): a decimal count followed by `I`/`L` (repeat) or `s` (length) -/
+def parseItems : Nat → Option Nat → List UInt8 → Option (List FmtItem)
+  | _, Option.none, [] => some []
+  | _, some _, [] => Option.none
+  | 0, _, _ => Option.none
+  | fuel + 1, cnt, c :: rest =>
+    if 48 ≤ c.toNat ∧ c.toNat ≤ 57 then parseItems fuel (some (cnt.getD 0 * 10 + (c.toNat - 48))) rest
+    else if c = 73 ∨ c = 76 then (parseItems fuel Option.none rest).map (fun l => List.replicate (cnt.getD 1) FmtItem.u32 ++ l)
+    else if c = 115 then (parseItems fuel Option.none rest).map (fun l => FmtItem.bytesN (cnt.getD 1) :: l)
+    else Option.none
+
+def parseFmtG (fmt : List UInt8) : Option (List FmtItem) :=
+  match fmt with
+  | 60 :: rest => parseItems (rest.length + 1) Option.none rest
+  | _ => Option.none
+
+def packItems : List FmtItem → List Val → M (List UInt8)
+  | [], [] => pure []
+  | .u32 :: is, v :: vs => do
+      match v with
+      | .int i => if 0 ≤ i ∧ i < 4294967296 then pure (le32 i.toNat ++ (← packItems is vs)) else throw .structError
+      | .bool _ => throw .unsupported
+      | _ => throw .structError
+  | .bytesN n :: is, v :: vs => do
+      match v with
+      | .bytes b | .bytearray b => pure ((b.take n ++ List.replicate (n - b.length) 0) ++ (← packItems is vs))   -- `s`: truncated or NUL-padded to n
+      | _ => throw .structError
+  | _, _ => throw .structError
+
+/-- `struct.pack(fmt, *args)` for general `<…` formats of `I`, `L` and `<n>s` items -/
+def structPackG (fmt : Val) (args : List Val) : M Val := do
+  match parseFmtG (← fmtBytes fmt) with
+  | Option.none => throw .unsupported
+  | some items => pure (.bytes (← packItems items args))
 
 /-! ### misc builtins -/
 
